@@ -10,8 +10,8 @@ import (
 // C09 (address filtering clause): with IP filtering enabled a delivered
 // announcement carries exactly the public addresses of the one that was
 // announced — also when none is public (then it carries none); with filtering
-// off the addresses are delivered unchanged. Four symbolic IPv4 bytes per
-// address go through the real manet predicates.
+// off the addresses are delivered unchanged. IPv4, IPv6, zoned IPv6 and DNS
+// addresses go through the real manet predicates.
 func VerifC09_FilterIPs() {
 	filter := verif_Bool("filterIPs")
 	rcv, err := NewReceiver(nil, "", WithFilterIPs(filter))
@@ -20,7 +20,7 @@ func VerifC09_FilterIPs() {
 	var addrs []multiaddr.Multiaddr
 	var public []bool
 	for i := 0; i < n; i++ {
-		kind := verif_Choose("addrKind", 0, 3)
+		kind := verif_Choose("addrKind", 0, 7)
 		var s string
 		pub := false
 		switch kind {
@@ -32,6 +32,14 @@ func VerifC09_FilterIPs() {
 			s = "/ip4/127.0.0.1/tcp/80"
 		case 3:
 			s, pub = "/dns4/example.com/tcp/443/https", true
+		case 4:
+			s = "/ip6/::1/tcp/80"
+		case 5:
+			s, pub = "/ip6/2001:4860:4860::8888/tcp/80", true
+		case 6:
+			s = "/ip6zone/eth0/ip6/fe80::1/tcp/80" // zoned link-local address
+		case 7:
+			s = "/ip6zone/lo/ip6/::1/tcp/80"
 		}
 		a, aerr := multiaddr.NewMultiaddr(s)
 		verif_Assume(aerr == nil)
